@@ -61,6 +61,11 @@ pub fn test_case(b: &Case) -> Result<CaseInfo, Fail> {
         } else {
             undecided = true;
         }
+        if s.inflight_calls != 0 {
+            // the cancelled parties wait for each other's answers inside cancel() (a real transport ends
+            // this with its timeout); whatever the leader holds until then also delays its other policies
+            return Ok(CaseInfo { classes: vec!["cancelled-session".into(), "cancel-waits-for-calls-in-flight".into()], undecided: true, ..Default::default() });
+        }
         for (si, s2) in obs.sessions.iter().enumerate() {
             if si == cs {
                 continue;
